@@ -1,8 +1,8 @@
 (* C18/Driver.v — entry point of the correspondence run (extracted to OCaml): the model,
    driven by the generated tables, answers what harness/src/bin/c18.rs observes on the
    live methods.  Two base register files:
-   - pattern mode (no fill): every location holds the sentinel -1 (the harness starts from a
-     byte pattern whose layout the model does not know);
+   - pattern mode (no fill): every location holds its own negative sentinel (the harness starts
+     from a byte pattern whose layout the model does not know; there every field is distinct too);
    - fill mode: every 32-bit word of the context is the case's fill word W, so every integer
      field of width w holds W repeated ([fill_value]); the fields and their widths come from
      the generated [ct_fields].  This is how the flag-like fields (cpsr, eflags, ...) take
@@ -24,10 +24,14 @@ Fixpoint field_width (f : name) (fs : list (name * Z * Z)) : option Z :=
   | (g, w, _) :: r => if name_eqb f g then Some w else field_width f r
   end.
 Definition n_context_flags : name := [99; 111; 110; 116; 101; 120; 116; 95; 102; 108; 97; 103; 115].
+(* pattern mode: a distinct negative sentinel per location (the harness's pattern gives every
+   field a distinct value too, so "still the base value" means the same on both sides) *)
+Definition sentinel : regfile :=
+  fun f i => - (fold_left (fun a b => a * 256 + b) f 0) * 1024 - i - 2.
 Definition base_of (c : ctx_table) (fill flags : option Z) : regfile :=
   let rf0 : regfile :=
     match fill with
-    | None => fun _ _ => -1
+    | None => sentinel
     | Some w32 => fun f _ => match field_width f (ct_fields c) with Some w => fill_value w w32 | None => -1 end
     end in
   match flags, field_width n_context_flags (ct_fields c) with
